@@ -131,8 +131,13 @@ func check(sc scen) func(x *vsync.Exec) string {
 				}
 				f := strings.Fields(l)
 				var got []byte
-				fmt.Sscanf(f[1], "%x", &got)
-				short := len(f) > 2
+				short := false
+				if len(f) > 1 && f[1] != "short" {
+					fmt.Sscanf(f[1], "%x", &got)
+					short = len(f) > 2
+				} else {
+					short = len(f) > 1 // a zero-length read prints no hex digits
+				}
 				if len(got) == 0 && !short {
 					continue
 				}
